@@ -261,6 +261,10 @@ bool apply_terminal_op(std::string const &op, reader &r, terminal &t)
         t.write(bytes{data.data(), data.size()});
     }
     else if (op == "sz") { long w = r.num(), h = r.num(); t.set_size({(coordinate_type)w, (coordinate_type)h}); }
+    // the rest of the terminal's public interface: none of these writes anything, and writing must go on working after them
+    else if (op == "cl") t.close();
+    else if (op == "al") { volatile bool alive = t.is_alive(); (void)alive; }
+    else if (op == "ar") t.async_read([](tokens) {});
     else return false;
     return true;
 }
